@@ -271,9 +271,10 @@ class Analyzer:
                 fell = False
                 for truth, env2, rel2 in self._test(fn, st.test, env, rel):
                     arm = st.body if truth else st.orelse
-                    if self._block(fn, arm, env2, rel2, rets, nanlit):
-                        if self._block(fn, body[i + 1 :], env2, rel2, rets, nanlit):
-                            fell = True
+                    # the arm and the rest of the block run as one sequence, so that assignments made
+                    # in the arm reach the statements after the `if`
+                    if self._block(fn, list(arm) + list(body[i + 1 :]), env2, rel2, rets, nanlit):
+                        fell = True
                 return fell
             if isinstance(st, ast.Assign) and len(st.targets) == 1 and isinstance(st.targets[0], ast.Name):
                 env = dict(env)
